@@ -475,12 +475,104 @@ func closureOf(v ssa.Value) *ssa.Function {
 	switch x := v.(type) {
 	case *ssa.MakeClosure:
 		if f, ok := x.Fn.(*ssa.Function); ok {
-			return f
+			return unwrapBound(f)
 		}
 	case *ssa.Function:
-		return x
+		return unwrapBound(x)
 	}
 	return nil
+}
+
+// unwrapBound maps a synthetic bound-method wrapper or thunk (the function value
+// behind `x.method` used as a value) to the method it forwards to.
+func unwrapBound(f *ssa.Function) *ssa.Function {
+	if f == nil || f.Synthetic == "" || f.Blocks == nil {
+		return f
+	}
+	var target *ssa.Function
+	n := 0
+	for _, b := range f.Blocks {
+		for _, in := range b.Instrs {
+			if ci, ok := in.(ssa.CallInstruction); ok {
+				n++
+				target = ci.Common().StaticCallee()
+			}
+		}
+	}
+	if n == 1 && target != nil && target.Blocks != nil {
+		return target
+	}
+	return f
+}
+
+// paramInvocations lists, for a function-typed parameter (index i) of the
+// in-repo function g, the call sites at which g (or something g hands the
+// parameter to) synchronously invokes it.  ok is false when the parameter
+// escapes in a way the analysis does not follow (stored, passed to unknown code,
+// started with go): the closure then has no recognised calling context.
+func (la *LockAnalysis) paramInvocations(g *ssa.Function, i int, depth int) (sites []ssa.Instruction, ok bool) {
+	if g == nil || g.Blocks == nil || i < 0 || i >= len(g.Params) || depth > 4 {
+		return nil, false
+	}
+	param := g.Params[i]
+	ok = true
+	isParam := func(v ssa.Value) bool { return core.Resolve(v) == ssa.Value(param) }
+	for _, f := range core.Family(g) {
+		for _, b := range f.Blocks {
+			for _, in := range b.Instrs {
+				ci, isCall := in.(ssa.CallInstruction)
+				if !isCall {
+					// any other use of the parameter (store, return, ...) = escape
+					if _, isMC := in.(*ssa.MakeClosure); isMC {
+						continue // captured by a nested closure: uses inside it are visited through Family
+					}
+					if _, isDbg := in.(*ssa.DebugRef); isDbg {
+						continue
+					}
+					for _, op := range in.Operands(nil) {
+						if *op != nil && isParam(*op) {
+							if st, isStore := in.(*ssa.Store); isStore {
+								if _, local := st.Addr.(*ssa.Alloc); local {
+									continue // spill of the parameter into its own cell
+								}
+							}
+							ok = false
+						}
+					}
+					continue
+				}
+				com := ci.Common()
+				if !com.IsInvoke() && isParam(com.Value) {
+					if _, isGo := in.(*ssa.Go); isGo {
+						ok = false
+						continue
+					}
+					sites = append(sites, in)
+					continue
+				}
+				for ai, a := range com.Args {
+					if !isParam(a) {
+						continue
+					}
+					c := core.Call(in)
+					switch {
+					case isSyncHOF(c):
+						sites = append(sites, in)
+					case c.Static != nil && inRepo(la.P, c.Static):
+						pi := ai
+						sub, subOK := la.paramInvocations(c.Static, pi, depth+1)
+						if !subOK {
+							ok = false
+						}
+						sites = append(sites, sub...)
+					default:
+						ok = false
+					}
+				}
+			}
+		}
+	}
+	return sites, ok
 }
 
 func meetMode(a, b mode) mode {
@@ -571,7 +663,31 @@ func (la *LockAnalysis) computeEntries(all []*ssa.Function) {
 	for _, fn := range all {
 		for _, c := range core.AllCalls(fn) {
 			_, isGo := c.Instr.(*ssa.Go)
+			// closures handed to an in-repo function run where that function invokes
+			// its parameter (e.g. a withLock(func(){…}) helper), not at the call site
+			viaParam := map[*ssa.Function]bool{}
+			if c.Static != nil && inRepo(la.P, c.Static) && !isSyncHOF(c) && !isGo {
+				for ai, a := range c.Common.Args {
+					if _, isFn := a.Type().Underlying().(*types.Signature); !isFn {
+						continue
+					}
+					cl := closureOf(a)
+					if cl == nil {
+						continue
+					}
+					if inner, ok := la.paramInvocations(c.Static, ai, 0); ok && len(inner) > 0 {
+						viaParam[cl] = true
+						for _, in := range inner {
+							sites = append(sites, site{in.Parent(), in, cl, false})
+						}
+						called[cl] = true
+					}
+				}
+			}
 			for _, callee := range la.calleesOf(c) {
+				if viaParam[callee] {
+					continue
+				}
 				sites = append(sites, site{fn, c.Instr, callee, isGo})
 				called[callee] = true
 			}
